@@ -67,6 +67,9 @@ void sqfs_writer_cleanup(sqfs_writer_t *sqfs, int status)
 	g_cleanup_calls += 1;
 	g_cleanup_seq = g_seq;
 	g_cleanup_status = status;
+#ifdef MAIN_ENV_CLEANUP_HOOK
+	MAIN_ENV_CLEANUP_HOOK(status);
+#endif
 }
 
 int fstree_post_process(fstree_t *fs)
